@@ -39,8 +39,9 @@
      I2  Documented normalisations (statement + db/tests/test_jaggedArray.py::_compareArrays docstring + JaggedArray
          docstring): sequences come back as sequences (list or ndarray, not distinguished); among RAGGED entries an empty
          sequence comes back unset, a scalar number comes back as a 1-element array and an entry that is itself ragged comes
-         back flattened to 1-D; NaN and None are the same "unset" token for reals (also inside dictionaries, where a
-         NaN-valued key is an absent key: packSpecialData docstring).  Equal-shaped empty sequences stay empty sequences.
+         back flattened to 1-D; NaN is the unset marker for reals: an unset entry always reads back None, a NaN scalar
+         reads back None when the collection has unset entries (markers in use) and NaN otherwise; a NaN-valued dictionary
+         key is an absent key (packSpecialData docstring).  Equal-shaped empty sequences stay empty sequences.
      I3  layout.py:64 "we assume no one assigns min(int)+2 as a meaningful value": a collection never contains the sentinel
          of its own dtype (signed: min+2 = "lo2", unsigned: max-2 = "hi2"); it does contain the OTHER family's sentinel.
      I4  Widths/signedness are not observable after .tolist() (python ints); exact dtypes are compared only for ragged
@@ -178,7 +179,8 @@ Plan(x) == IF Jagged(x) THEN PlanJagged(x) ELSE IF SqIdx(x) # {} THEN PlanSeqs(x
 
 (* ------------------------------------------- the contract: NF ---------------------------------------------- *)
 U == [t |-> "U"]
-Tok(v) == IF v \in {"nan", "none"} THEN "U" ELSE v
+\* inside a real-valued array an inner None can only be NaN; NaN stays NaN
+Tok(v) == IF v = "none" THEN "nan" ELSE v
 Ragged(x) == SqIdx(x) # {} /\ ~(SqIdx(x) = Ix(x) /\ (\A i \in Ix(x) : x[i].t = "seq")
                                 /\ Cardinality({x[i].sh : i \in Ix(x)}) = 1)
 \* dtypes of everything that carries a value (inner None ignored)
@@ -195,7 +197,8 @@ NF(x) ==
        CASE e.t = "none" -> U
          [] e.t = "dict" -> [t |-> "dict", c |-> IF Kept(e) = <<>> THEN "" ELSE DictCls(x), m |-> Kept(e)]
          [] e.t = "sc"   -> IF Ragged(x) THEN [t |-> "seq", c |-> cls, d |-> dt, sh |-> <<1>>, vs |-> <<Tok(e.v)>>]
-                            ELSE IF Tok(e.v) = "U" THEN U ELSE [t |-> "sc", c |-> cls, v |-> e.v]
+                            ELSE IF e.v = "nan" /\ NoIdx(x) # {} THEN U       \* NaN is the unset marker once markers are in use
+                            ELSE [t |-> "sc", c |-> cls, v |-> e.v]
          [] OTHER        -> IF Ragged(x) /\ TopLen(e) = 0 THEN U
                             ELSE [t |-> "seq", c |-> IF Len(Leaves(e)) = 0 THEN "" ELSE cls,
                                   d |-> IF Len(Leaves(e)) = 0 THEN "" ELSE dt, sh |-> JShape(e),
@@ -260,7 +263,7 @@ Err == <<[t |-> "ERR"]>>
 DecPlain(s) ==
   [i \in Ix(s.data) |->
      LET e == s.data[i] IN
-     IF e.t = "sc" THEN (IF Tok(e.v) = "U" THEN U ELSE [t |-> "sc", c |-> s.cls, v |-> e.v])
+     IF e.t = "sc" THEN [t |-> "sc", c |-> s.cls, v |-> e.v]
      ELSE [t |-> "seq", c |-> IF Len(e.vs) = 0 THEN "" ELSE s.cls, d |-> "", sh |-> e.sh, vs |-> [j \in Ix(e.vs) |-> Tok(e.vs[j])]]]
 
 \* layout.py replaceNonsenseWithNones: the marker tested is the one of the DATASET dtype
